@@ -538,6 +538,39 @@ def v12(ctx, rid):
         raise core.AnchorLost('reads into a reused buffer in src/blob, src/tools: %d' % n)
 
 
+def v13(ctx, rid):
+    """`every value and metadata map is returned as written`, deletion records included: a deletion is written into several
+    blobs (the active blob and every closed blob that holds the key) and each of these records carries the caller's metadata
+    map.  The per-blob closures therefore hand over a copy (`clone`) of the map; a value *moved out* of a captured slot
+    (`Option::take`, `mem::take`, `replace`) reaches only the first blob visited and every other deletion record is written
+    with an empty map."""
+    prog = ctx.prog
+    n = 0
+    for f in prog.fns.values():
+        if f.file != 'src/storage/core.rs':
+            continue
+        for c in f.calls:
+            if c.bb not in f.reachable() or c.name not in ('delete', 'mark_all_as_deleted') or not any('blob::core::Blob' in t for t in prog.resolve(c)):
+                continue
+            metas = [a for a in c.args if op_local(a) is not None and 'record::record::Meta' in f.locals[op_local(a)]['s']]
+            for a in metas:
+                n += 1
+                key = 'deletion-meta-is-a-copy|%s' % prog.fns[f.id].root
+                ogs = core.origins(f, a)
+                moved = []
+                if f.kind == 'Closure':
+                    for x in f.calls:
+                        if x.bb in f.reachable() and x.name in ('take', 'replace', 'take_if') and x.args and any(o.kind == 'upvar' for o in core.origins(f, x.args[0])) \
+                           and op_local(a) in core.flows_forward(f, x.dest[0]):
+                            moved.append(x)
+                if moved:
+                    ctx.bad(rid, key, c.where(), 'the metadata of the deletion record is moved out of a captured slot (`%s`) inside the per-blob closure: only the first blob visited receives it, the deletion records of all other blobs carry an empty map' % moved[0].name)
+                else:
+                    ctx.ok(rid, key, c.where(), 'metadata handed over by value / clone')
+    if n < 2:
+        raise core.AnchorLost('deletion calls carrying a Meta in src/storage/core.rs: %d' % n)
+
+
 RULES = [
     Rule('C05.V1', 'no record data leaves a reading function without an ok data-checksum audit', v1, 4),
     Rule('C05.V2', 'a header deserialised from file bytes is accepted only after magic + header-CRC validation', v2, 3),
@@ -551,5 +584,6 @@ RULES = [
     Rule('C05.V10', 'an error of Entry::load in a storage read path never ends in an Ok answer', v10, 1),
     Rule('C05.V11', 'record size fields are computed by the serializer, not by hand', v11, 2),
     Rule('C05.V12', 'a reused buffer is resized to the length to be read on every path before an exact positional read fills it', v12, 1),
+    Rule('C05.V13', 'every deletion record of a multi-blob delete carries a copy of the caller\'s metadata map', v13, 2),
     Rule('C05.V5', 'the header CRC written at reservation time is computed after the offset was patched', v5, 1),
 ]
